@@ -72,6 +72,7 @@ from .sqltypes import NullType
 from .visitors import InternalTraversal
 from .. import exc
 from .. import util
+from ..util import HasMemoized_ro_memoized_attribute
 from ..util.typing import Self
 from ..util.typing import TupleAny
 from ..util.typing import TypeVarTuple
@@ -857,11 +858,11 @@ class UpdateBase(
             column, require_embedded=require_embedded
         )
 
-    @util.ro_memoized_property
+    @HasMemoized_ro_memoized_attribute
     def _all_selected_columns(self) -> _SelectIterable:
         return [c for c in _select_iterables(self._returning)]
 
-    @util.ro_memoized_property
+    @HasMemoized_ro_memoized_attribute
     def exported_columns(
         self,
     ) -> ReadOnlyColumnCollection[Optional[str], ColumnElement[Any]]:
